@@ -221,6 +221,8 @@ def r_pin_interpreted(ctx: Ctx, model, prop="C15", rule="R-pin", check="pin"):
                 I.libmeth[("RecAds", mth)] = (lambda mth: lambda I, v, a, k, n: Sy(f"ads_{mth}"))(mth)
             I.libmeth[("RecAds", "get_prop")] = lambda I, v, a, k, n: Sy(f"ads_prop_{a[0]}") if a and isinstance(a[0], str) else Sy("ads_prop")
             I.libattr[("RecAds", "properties")] = lambda I, v, n: {}
+            I.libmeth[("RecAds", "__str__")] = lambda I, v, a, k, n: "ADS"
+            I.libmeth[("RecAds", "__repr__")] = lambda I, v, a, k, n: "ADS"
             I.overrides["pygaps.core.adsorbate.Adsorbate.find"] = lambda I, fi_, env, n: ads
 
             def stop(I, fi_, env, n):
